@@ -114,6 +114,14 @@ type c20World struct {
 	r         *VRand
 	st        *VStats
 	silent    bool
+	// fault injection: the next progress-file operation of goroutine failGid (inside a hook), or of the
+	// next replayed `prog=` statement (failStmt), is made to fail — by the REAL reader/writer, pointed at
+	// a directory that does not exist
+	badPath   string
+	failGid   atomic.Uint64
+	failStmt  bool
+	faultErrs int
+	hadFault  bool
 }
 
 var c20Cur *c20World
@@ -122,14 +130,14 @@ func c20InstallHooks() {
 	setRunSignalProgress = func(code byte, content string) error {
 		w := c20Cur
 		w.gate("set")
-		err := writeSignalProgressFile(w.progPath, code, content)
+		err := writeSignalProgressFile(w.ioPath(), code, content)
 		w.after()
 		return err
 	}
 	getRunSignalProgress = func() (byte, string, error) {
 		w := c20Cur
 		w.gate("get")
-		c, s, err := readSignalProgressFile(w.progPath)
+		c, s, err := readSignalProgressFile(w.ioPath())
 		w.after()
 		return c, s, err
 	}
@@ -147,6 +155,17 @@ func c20InstallHooks() {
 	}
 }
 
+// ioPath: the progress file — or, when a fault is due for the calling goroutine, a path under a
+// directory that does not exist, so that the real writer (os.CreateTemp) / reader (os.ReadFile) fails.
+func (w *c20World) ioPath() string {
+	gid := c20GID()
+	if gid != 0 && w.failGid.CompareAndSwap(gid, 0) {
+		w.faultErrs++
+		return w.badPath
+	}
+	return w.progPath
+}
+
 func (w *c20World) gate(kind string) {
 	p := &c20Park{gid: c20GID(), kind: kind, resume: make(chan struct{})}
 	w.parkCh <- p
@@ -160,7 +179,7 @@ func c20NewWorld(t *testing.T, dir string, regions *c20Regions, r *VRand, st *VS
 	log.SetOutput(io.Discard)
 	w := &c20World{t: t, log: log, progPath: filepath.Join(dir, "dae.progress"),
 		parkCh: make(chan *c20Park), afterCh: make(chan uint64), gids: map[uint64]*c20Thread{},
-		curRet: -1, regions: regions, r: r, st: st}
+		curRet: -1, regions: regions, r: r, st: st, badPath: filepath.Join(dir, "no-such-dir", "dae.progress")}
 	w.m = newReloadManager(make(chan reloadRequest, 1), make(chan struct{}, 1), nil)
 	w.M = &c20Thread{name: "M"}
 	w.W = &c20Thread{name: "W"}
@@ -269,9 +288,35 @@ func (w *c20World) resume(p *c20Park) bool {
 	}
 }
 
-// stepThread runs the next atomic section of M or W.
-func (w *c20World) stepThread(th *c20Thread) (spawnedRunning bool) {
+// faultable: the next section of th contains a progress-file operation (it is parked at the set / get
+// hook, or its next replayed statement is a progress write).
+func (w *c20World) faultable(th *c20Thread) string {
+	switch {
+	case th.park != nil && (th.park.kind == "set" || th.park.kind == "get"):
+		return "@" + th.park.kind
+	case th.park == nil && th.pendingSig == "" && len(th.calls) > 0 && strings.HasPrefix(th.calls[0].name, "prog="):
+		return ":" + th.calls[0].name
+	}
+	return ""
+}
+
+// stepThread runs the next atomic section of M or W (fault: its progress-file operation fails).
+func (w *c20World) stepThread(th *c20Thread, fault bool) (spawnedRunning bool) {
 	var newG []*c20G
+	if fault {
+		w.hadFault = true
+		before := w.faultErrs
+		defer func() {
+			if w.faultErrs != before+1 || w.failGid.Load() != 0 || w.failStmt {
+				w.fail("the injected progress-file fault was not consumed by this section")
+			}
+		}()
+		if th.park != nil {
+			w.failGid.Store(th.park.gid)
+		} else {
+			w.failStmt = true
+		}
+	}
 	if th.park != nil {
 		p := th.park
 		th.park = nil
@@ -434,7 +479,17 @@ func (w *c20World) state() string {
 // ---------------------------------------------------------------- path statements → real calls
 
 func (w *c20World) writeProg(code byte, msg string) {
-	_ = writeSignalProgressFile(w.progPath, code, msg)
+	// the statement in cmd/run.go is `_ = setRunSignalProgress(…)`: the error is dropped
+	path := w.progPath
+	if w.failStmt {
+		w.failStmt = false
+		path = w.badPath
+		if err := writeSignalProgressFile(path, code, msg); err != nil {
+			w.faultErrs++
+		}
+		return
+	}
+	_ = writeSignalProgressFile(path, code, msg)
 }
 
 func (w *c20World) doWaitStart(outcome string) {
@@ -489,8 +544,19 @@ func (w *c20World) doWait(outcome string) {
 	w.waitRes = nil
 }
 
-func (w *c20World) swallow(k string) {
+func (w *c20World) swallow(k string, fault bool) {
 	w.doWaitStart(w.M.waitOut)
+	if fault {
+		w.hadFault = true
+		before := w.faultErrs
+		w.failGid.Store(w.waitGid.Load())
+		defer func() {
+			if w.faultErrs != before+1 || w.failGid.Load() != 0 {
+				w.fail("the injected progress-file fault was not consumed by the ready wait")
+			}
+			w.failGid.Store(0)
+		}()
+	}
 	sig := syscall.SIGUSR1
 	if k == "s" {
 		sig = syscall.SIGUSR2
@@ -722,10 +788,22 @@ func (w *c20World) enabled() (internal []string, external []string) {
 	}
 	external = append(external, "mark", "spur")
 	mIdle := !w.busy(w.M)
+	if w.faultable(w.M) != "" {
+		external = append(external, "mf")
+	}
+	if w.faultable(w.W) != "" {
+		external = append(external, "wf")
+	}
+	if w.gAt("get") != nil {
+		external = append(external, "greadf")
+	}
+	if w.gAt("set") != nil {
+		external = append(external, "gwritef")
+	}
 	if mIdle {
 		external = append(external, "sig r", "sig s", "term")
 		if w.cliAccepts() {
-			external = append(external, "cli")
+			external = append(external, "cli", "clifail")
 		}
 		if len(w.m.runStateChanges) > 0 {
 			internal = append(internal, "wake")
@@ -733,7 +811,7 @@ func (w *c20World) enabled() (internal []string, external []string) {
 	} else {
 		internal = append(internal, "m")
 		if w.M.park == nil && w.M.pendingSig == "" && len(w.M.calls) > 0 && w.M.calls[0].name == "wait" && w.M.waitOut != "timeout" {
-			external = append(external, "swallow r", "swallow s")
+			external = append(external, "swallow r", "swallow s", "swallowf r", "swallowf s")
 		}
 	}
 	if w.busy(w.W) {
@@ -762,7 +840,26 @@ func (w *c20World) do(a c20Action) string {
 	case "sig r", "sig s":
 		w.M.pendingSig = a.name[4:]
 	case "swallow r", "swallow s":
-		w.swallow(a.name[8:])
+		w.swallow(a.name[8:], false)
+	case "swallowf r", "swallowf s":
+		w.swallow(a.name[9:], true)
+	case "clifail":
+		// the real client helper with a kill(2) that fails: it must put back exactly what it found
+		before, _ := os.ReadFile(w.progPath)
+		err := writeReloadSendAndSignal(w.progPath, 1, func(int, syscall.Signal) error { return syscall.ESRCH })
+		after, _ := os.ReadFile(w.progPath)
+		if err == nil {
+			w.fail("writeReloadSendAndSignal reported success although kill failed")
+		}
+		if string(before) != string(after) {
+			w.st.Inc("CLIFAIL_NOT_RESTORED")
+		}
+	case "mf":
+		w.st.Inc("fault:M" + w.faultable(w.M))
+		w.stepThread(w.M, true)
+	case "wf":
+		w.st.Inc("fault:W" + w.faultable(w.W))
+		w.stepThread(w.W, true)
 	case "term":
 		w.exited = true
 	case "mark":
@@ -783,11 +880,11 @@ func (w *c20World) do(a c20Action) string {
 	case "m":
 		// finishReloadSuccess on an already closed channel: the goroutine it spawns stores
 		// pending=false and reaches its first hook without any gate in between
-		if w.stepThread(w.M) {
+		if w.stepThread(w.M, false) {
 			op = "m ; gstore"
 		}
 	case "w":
-		if w.stepThread(w.W) {
+		if w.stepThread(w.W, false) {
 			op = "w ; gstore"
 		}
 	case "wake":
@@ -826,8 +923,8 @@ func (w *c20World) do(a c20Action) string {
 		}
 		w.await(nil, []*c20G{g})
 		op = "closeg ; gstore"
-	case "gend", "gread", "gwrite":
-		kind := map[string]string{"gend": "end", "gread": "get", "gwrite": "set"}[a.name]
+	case "gend", "gread", "gwrite", "greadf", "gwritef":
+		kind := map[string]string{"gend": "end", "gread": "get", "gwrite": "set", "greadf": "get", "gwritef": "set"}[a.name]
 		g := w.gAt(kind)
 		if g == nil {
 			w.fail("no release goroutine is parked at hook " + kind)
@@ -835,7 +932,20 @@ func (w *c20World) do(a c20Action) string {
 		}
 		p := g.park
 		g.park = nil
-		expectPark := kind == "end" || (kind == "get" && strings.HasPrefix(c20ProgClass(w.progPath), "busy"))
+		fault := strings.HasSuffix(a.name, "f")
+		expectPark := kind == "end" || (kind == "get" && !fault && strings.HasPrefix(c20ProgClass(w.progPath), "busy"))
+		if fault {
+			w.hadFault = true
+			w.st.Inc("fault:G@" + kind)
+			before := w.faultErrs
+			w.failGid.Store(p.gid)
+			defer func() {
+				if w.faultErrs != before+1 || w.failGid.Load() != 0 {
+					w.fail("the injected progress-file fault was not consumed by the release goroutine")
+				}
+				w.failGid.Store(0)
+			}()
+		}
 		if w.resume(p) {
 			if expectPark {
 				w.await(nil, []*c20G{g})
@@ -972,11 +1082,12 @@ func (s *c20Seq) quiet() {
 	q := len(in) == 0
 	f := c20ProgClass(w.progPath)
 	stuck := q && !w.exited && (w.m.reloadPending.Load() || outbounddialer.VerifC20Suppression() != 0 ||
-		strings.HasPrefix(f, "busy") || w.m.reloadActive.Load() || w.m.reloading.Load())
+		w.m.reloadActive.Load() || w.m.reloading.Load())
+	stale := q && !w.exited && strings.HasPrefix(f, "busy")
 	if w.desync != "" {
 		s.out.Emit("quiet?", "desync:"+w.desync)
 	} else {
-		s.out.Emit("quiet?", fmt.Sprintf("quiescent=%s stuck=%s", c20B(q), c20B(stuck)))
+		s.out.Emit("quiet?", fmt.Sprintf("quiescent=%s stuck=%s stale=%s", c20B(q), c20B(stuck), c20B(stale)))
 	}
 	s.nOps++
 	if q && !w.exited {
@@ -987,6 +1098,15 @@ func (s *c20Seq) quiet() {
 	}
 	if stuck {
 		w.st.Inc("STUCK")
+	}
+	if stale && !w.hadFault {
+		w.st.Inc("STALE_BUSY")
+	}
+	if q && !w.exited && w.hadFault {
+		w.st.Inc("settled_sequences_with_io_fault")
+		if stale {
+			w.st.Inc("stale_busy_after_io_fault")
+		}
 	}
 }
 
@@ -1060,11 +1180,42 @@ func (s *c20Seq) defaultNext(excludeM bool) (string, bool) {
 
 // systematic: one request, worker path wp, handler choice hsel, a second signal injected before
 // canonical step inj; the refuser's sections are spread with `gap` foreign steps in between.
-func c20Systematic(s *c20Seq, wp *c20Path, hsel int, inj int, kind string, gap int) (steps int) {
+//
+// faultAt >= 0: the faultAt-th section (in schedule order) that contains a progress-file operation runs
+// with that operation failing.  Returns the number of canonical steps and of such sections seen.
+func c20Systematic(s *c20Seq, wp *c20Path, hsel int, inj int, kind string, gap int, faultAt int) (steps int, nFaultable int) {
 	w := s.w
 	s.accept("r")
 	injected := false
 	hold := 0
+	// withFault turns action n into its failing variant when its turn has come
+	withFault := func(n string) string {
+		fa := ""
+		switch n {
+		case "m":
+			if w.faultable(w.M) != "" {
+				fa = "mf"
+			}
+		case "w":
+			if w.faultable(w.W) != "" {
+				fa = "wf"
+			}
+		case "gread":
+			fa = "greadf"
+		case "gwrite":
+			fa = "gwritef"
+		case "swallow r", "swallow s":
+			fa = "swallowf" + n[7:]
+		}
+		if fa == "" {
+			return n
+		}
+		nFaultable++
+		if nFaultable-1 == faultAt {
+			return fa
+		}
+		return n
+	}
 	for steps = 0; steps < 200 && w.desync == "" && !w.exited; steps++ {
 		if steps == inj && !injected {
 			injected = true
@@ -1079,7 +1230,7 @@ func c20Systematic(s *c20Seq, wp *c20Path, hsel int, inj int, kind string, gap i
 				s.emit(c20Action{name: "m"})
 				hold = gap
 			case can["swallow "+kind]:
-				s.emit(c20Action{name: "swallow " + kind})
+				s.emit(c20Action{name: withFault("swallow " + kind)})
 			}
 		}
 		mSig := w.M.sigWork || w.M.pendingSig != ""
@@ -1103,7 +1254,7 @@ func c20Systematic(s *c20Seq, wp *c20Path, hsel int, inj int, kind string, gap i
 				hold--
 			}
 		}
-		a := c20Action{name: n}
+		a := c20Action{name: withFault(n)}
 		switch n {
 		case "wstart":
 			a.path = wp
@@ -1129,6 +1280,9 @@ func c20Systematic(s *c20Seq, wp *c20Path, hsel int, inj int, kind string, gap i
 		w.st.Inc("SECOND_REQUEST_NOT_ACCEPTED")
 	} else {
 		w.st.Inc("second_request_accepted")
+		if w.hadFault {
+			w.st.Inc("second_request_accepted_after_io_fault")
+		}
 	}
 	s.settle()
 	return
@@ -1164,6 +1318,15 @@ func c20Random(s *c20Seq, n int) {
 				}
 			case "mark", "spur":
 				if w.r.Intn(4) == 0 {
+					choices = append(choices, e)
+				}
+			case "mf", "wf", "greadf", "gwritef", "swallowf r", "swallowf s":
+				// a failing progress-file operation instead of a working one
+				if w.r.Intn(3) == 0 {
+					choices = append(choices, e)
+				}
+			case "clifail":
+				if w.r.Intn(8) == 0 {
 					choices = append(choices, e)
 				}
 			default:
@@ -1243,6 +1406,14 @@ func TestVerifC20(t *testing.T) {
 		c20StaleBusy(s, regions)
 	})
 
+	// (1') directed schedules with one failing progress-file operation around a refusal and the release's
+	// clean-up (what such a failure can leave behind: a stale busy report; what it cannot touch: the flags)
+	for v := 0; v < 5; v++ {
+		total += c20RunSeq(t, out, dir, regions, r.Fork(), st, func(s *c20Seq) {
+			c20FaultDirected(s, regions, v)
+		})
+	}
+
 	// (2) systematic single injections
 	kinds := []string{"r", "s"}
 	gaps := []int{0, 1, 2, 3, 5}
@@ -1251,13 +1422,18 @@ func TestVerifC20(t *testing.T) {
 		stride = 11
 	}
 	cnt := 0
+	fcnt, faultOps := 0, 0
+	fstride := 1
+	if !VThorough() {
+		fstride = 4
+	}
 	for wi := range regions.worker {
 		wp := &regions.worker[wi]
 		for hsel := 0; hsel < 6; hsel++ {
 			// length of the uninjected run
-			n := 0
+			n, nF := 0, 0
 			total += c20RunSeq(t, out, dir, regions, r.Fork(), st, func(s *c20Seq) {
-				n = c20Systematic(s, wp, hsel, -1, "r", 0)
+				n, nF = c20Systematic(s, wp, hsel, -1, "r", 0, -1)
 			})
 			for inj := 0; inj <= n; inj++ {
 				for _, gap := range gaps {
@@ -1265,19 +1441,45 @@ func TestVerifC20(t *testing.T) {
 					if cnt%stride != 0 {
 						continue
 					}
-					if total > budget*2/3 {
+					if total-faultOps > budget*55/100 {
 						continue
 					}
 					kind := kinds[cnt%2]
 					mf := (cnt/stride)%3 == 0
 					total += c20RunSeq(t, out, dir, regions, r.Fork(), st, func(s *c20Seq) {
 						s.mfirst = mf
-						c20Systematic(s, wp, hsel, inj, kind, gap)
+						c20Systematic(s, wp, hsel, inj, kind, gap, -1)
 					})
 					if mf {
 						st.Inc("systematic_mfirst_sequences")
 					}
 					st.Inc("systematic_sequences")
+				}
+			}
+			// (2') the same with one failing progress-file operation: every section of the plain run that
+			// touches the file, and — with a second signal injected — the refuser's own sections
+			for fi := 0; fi < nF+4; fi++ {
+				for _, inj := range []int{-1, 1 + (fcnt*7)%(n+1), 1 + (fcnt*13+5)%(n+1)} {
+					fcnt++
+					if inj < 0 && fi >= nF {
+						continue
+					}
+					if fcnt%fstride != 0 || faultOps > budget*15/100 {
+						continue
+					}
+					kind := kinds[fcnt%2]
+					gap := gaps[(fcnt/2)%len(gaps)]
+					mf := (fcnt/fstride)%3 == 0
+					got := 0
+					nops := c20RunSeq(t, out, dir, regions, r.Fork(), st, func(s *c20Seq) {
+						s.mfirst = mf
+						_, got = c20Systematic(s, wp, hsel, inj, kind, gap, fi)
+					})
+					total += nops
+					faultOps += nops
+					if got > fi {
+						st.Inc("systematic_fault_sequences")
+					}
 				}
 			}
 		}
@@ -1292,6 +1494,96 @@ func TestVerifC20(t *testing.T) {
 	out.Close()
 	st.Add("ops_total", total)
 	st.Write("c20")
+}
+
+// c20FaultDirected: a request succeeded and its old generation is retiring; a second request is refused;
+// then, depending on the variant, one progress-file operation fails:
+//
+//	0  the release goroutine's clean-up READ fails after the refusal wrote its busy report   (stale busy)
+//	1  the release goroutine's clean-up WRITE fails                                           (stale busy)
+//	2  the refusal's busy report cannot be written                                            (nothing at all)
+//	3  4876faa schedule, the refuser's own re-check READ fails                                (stale busy)
+//	4  4876faa schedule, the refuser's own clean-up WRITE fails                               (stale busy)
+//
+// afterwards the next request must be accepted and its release cleans the file up again.
+func c20FaultDirected(s *c20Seq, regions *c20Regions, variant int) {
+	w := s.w
+	var wp, hp *c20Path
+	for i := range regions.worker {
+		p := &regions.worker[i]
+		if c20HasTok(p, "startret") && !c20HasTok(p, "err=1") && c20HasTok(p, "clearstaged") {
+			wp = p
+		}
+	}
+	for i := range regions.handler {
+		p := &regions.handler[i]
+		if c20HasTok(p, "finishsucc") && c20HasTok(p, "lnil=0") && c20HasTok(p, "staged=0") && c20HasTok(p, "errnil=1") {
+			hp = p
+		}
+	}
+	if wp == nil || hp == nil {
+		w.st.Inc("fault_directed_unavailable")
+		return
+	}
+	s.accept("r")
+	s.emit(c20Action{name: "wstart", path: wp})
+	for w.busy(w.W) && w.desync == "" {
+		s.emit(c20Action{name: "w"})
+	}
+	s.emit(c20Action{name: "wake", path: hp})
+	for w.busy(w.M) && w.desync == "" {
+		s.emit(c20Action{name: "m"})
+	}
+	if w.gBlocked() == nil || w.desync != "" {
+		w.st.Inc("fault_directed_unavailable")
+		return
+	}
+	s.emit(c20Action{name: "sig s"})
+	s.emit(c20Action{name: "m"}) // CAS fails; parked before the busy report
+	switch variant {
+	case 0, 1:
+		s.emit(c20Action{name: "m"}) // busy report written, the request is still pending: done
+		s.emit(c20Action{name: "closeg"})
+		s.emit(c20Action{name: "gend"})
+		if variant == 0 {
+			s.emit(c20Action{name: "greadf"})
+		} else {
+			s.emit(c20Action{name: "gread"})
+			s.emit(c20Action{name: "gwritef"})
+		}
+	case 2:
+		s.emit(c20Action{name: "mf"})
+	case 3, 4:
+		s.emit(c20Action{name: "closeg"})
+		s.emit(c20Action{name: "gend"})
+		s.emit(c20Action{name: "gread"}) // sees Done: nothing to clear
+		s.emit(c20Action{name: "m"})     // busy report; pending already false: re-check, parked at the read
+		if variant == 3 {
+			s.emit(c20Action{name: "mf"})
+		} else {
+			s.emit(c20Action{name: "m"})
+			s.emit(c20Action{name: "mf"})
+		}
+	}
+	s.settle()
+	if w.desync != "" || w.exited {
+		return
+	}
+	w.st.Inc(fmt.Sprintf("fault_directed:%d", variant))
+	if strings.HasPrefix(c20ProgClass(w.progPath), "busy") {
+		w.st.Inc("fault_directed_left_stale_busy")
+	}
+	// the daemon still takes the next request, and that request's release clears the left-over report
+	s.accept("r")
+	if w.m.reloadPending.Load() && len(w.m.reloadReqs) == 1 {
+		w.st.Inc("second_request_accepted_after_io_fault")
+	} else {
+		w.st.Inc("SECOND_REQUEST_NOT_ACCEPTED")
+	}
+	s.settle()
+	if !strings.HasPrefix(c20ProgClass(w.progPath), "busy") {
+		w.st.Inc("fault_directed_cleared_by_next_release")
+	}
 }
 
 // c20StaleBusy: a request succeeded and its old generation is retiring; a second request is
